@@ -28,3 +28,6 @@ def run(chk):
     wrapper_contracts.classification(chk, "C06")
     wrapper_contracts.control_signals_not_exceptions(chk, "C06")
     wrapper_contracts.checkpoint_error_classification(chk, "C06")
+    # "no at-most-once step function is entered without its recorded start" - for the first attempt and for every retry attempt (record READY)
+    ex = explore("step")
+    hobl.c04(chk, ex, prefix="C06")
